@@ -188,7 +188,7 @@ KF_LENIENT = ["a:<", "a <", "a:/",                      # F11 as recorded in the
               "b:[1 TO 2 ]", "b:{1 TO * }",              # blank before the closing range bracket
               "b:>=-5^3",                                # negative bound followed by a boost
               "a:IN [ 'b' a]",                           # blank after `[` in front of a quoted element
-              "-1*", "a:-1~2",                           # negative number with a prefix / slop mark
+              "a:-1*", "a:-1~2",                         # negative number with a prefix / slop mark
               'a a""', 'a ""a', "IN [ ]"]                # empty quotes next to a word; blank in an empty set
 KF_DEEP = [{"rep": {"pre": [10], "n": 20000, "mid": [1], "post": [11]}},       # ((( ... a ... )))
            {"rep": {"pre": [19, 24], "n": 100000, "mid": [1], "post": []}}]    # NOT NOT ... a
@@ -207,12 +207,6 @@ def known_finding_runs(ctx, header, corpus):
     # unbounded recursion: deep nesting aborts the process (stack overflow)
     ev, _, bad = totality(ctx, "kf_deep", KF_DEEP, header, kf_tag="deep-nesting-stack-overflow", batch=1, jobs=1)
     res["deep nesting stack overflow"] = {"crash_events": sum(1 for e in ev if e["ev"] == "crash"), "inputs": len(KF_DEEP)}
-    # a phrase under `-`: the search of the parsed query panics (PhraseScorer::seek_danger), a defect of
-    # query execution that makes the meaning of such queries unobservable
-    case = {"q": ["bool", [["-", ["ph", "body", [4, 5], 0, False]], ["+", ["w", "title", 1]]]], "texts": [[ord(c) for c in '-body:"c cab" +title:ab']]}
-    ev, _ = drive(ctx, {"kind": "meaning", "corpus": corpus}, [case], "kf_phrase")
-    ok, bad = el.judge(ctx, MODULE, CFG, per_event_runs(ev), "kf_phrase", key=meaning_key, nontrivial=meaning_nontrivial, kf_tag="search-panics-on-excluded-phrase")
-    res["excluded phrase search panic"] = "reproduced" if bad else "NOT reproduced"
 
 
 def binding_selftest(ctx, tot_ev, mean_ev):
